@@ -2299,7 +2299,7 @@ class EdgeQLSourceGenerator(codegen.SourceGenerator):
                 self.visit(qlast.Constant.string(op_str))
                 self.write(';')
             if node.code.from_function:
-                from_clause = f'USING {node.code.language} OPERATOR '
+                from_clause = f'USING {node.code.language} FUNCTION '
                 self._write_keywords(from_clause)
                 op, *types = node.code.from_function
                 op_str = op
